@@ -163,13 +163,16 @@ func (h *DirHandler) GetOutbound(fws ...fbb.Address) []*fbb.Message {
 		// Check unsent messages that are addressed to one of the
 		// forwarder addresses of the remote.
 		if len(fws) > 0 {
+			var addressedToRemote bool
 			for _, fw := range fws {
 				if m.IsOnlyReceiver(fw) {
-					deliver = append(deliver, m)
+					addressedToRemote = true
 					break
 				}
 			}
-			continue
+			if !addressedToRemote {
+				continue
+			}
 		}
 
 		if len(fws) == 0 && m.Header.Get("X-P2POnly") == "true" {
